@@ -146,6 +146,52 @@ Proof.
     rewrite A5, Ev. cbn [D.split_loop]. eexists. split; [reflexivity|]. dproj. repeat split; auto.
 Qed.
 
+Lemma dec_step_C : forall s f a rest, DP.W NC maxv f s -> 3 * f + 3 <= NC -> D.stack s = a :: rest ->
+  let x := D.c2v s (D.next_c a) in let l := D.vc s x in let b := D.next_c l in
+  0 <= l < 3 * f -> a <> b -> D.copp s a = -1 -> D.copp s b = -1 ->
+  x <> D.c2v s (D.prev_c a) -> x <> D.c2v s (D.next_c b) ->
+  exists s', D.step_C NC maxv s f = D.Ok s' /\
+    D.copp s' = D.upd (D.upd (D.upd (D.upd (D.copp s) a (3 * f + 1)) (3 * f + 1) a) b (3 * f + 2)) (3 * f + 2) b /\
+    D.c2v s' = D.upd (D.upd (D.upd (D.c2v s) (3 * f) x) (3 * f + 1) (D.c2v s (D.next_c b))) (3 * f + 2) (D.c2v s (D.prev_c a)) /\
+    D.nv s' = D.nv s /\ D.stack s' = 3 * f :: rest /\
+    D.events s' = D.events s /\ D.splits s' = D.splits s /\ D.invalid s' = D.invalid s /\ D.nfaces s' = D.nfaces s /\
+    D.inits s' = D.inits s.
+Proof.
+  intros s f a rest HW HN Est x l b Hl Nab Fa Fb Nx1 Nx2.
+  pose proof (DP.w_nf _ _ _ _ HW) as Hnf. pose proof (DP.w_nv _ _ _ _ HW) as Hnv.
+  pose proof (DP.w_stack _ _ _ _ HW) as Hst. rewrite Est in Hst. inversion Hst as [|? ? Ha Hrest]; subst.
+  pose proof (DP.next_c_rng a f Ha) as Hna. pose proof (DP.prev_c_rng a f Ha) as Hpa.
+  assert (Hb : 0 <= b < 3 * f) by (apply DP.next_c_rng; auto).
+  pose proof (DP.next_c_rng b f Hb) as Hnb.
+  pose proof (DP.w_vr _ _ _ _ HW _ Hna) as Hx. fold x in Hx.
+  pose proof (DP.w_vr _ _ _ _ HW _ Hpa) as Hvap. pose proof (DP.w_vr _ _ _ _ HW _ Hnb) as Hvbn.
+  unfold D.step_C. rewrite Est. unfold D.vertex, D.lmc. fwd. fold x. fwd. fold l. fold b.
+  replace (a =? b) with false by lia.
+  unfold D.all_free, D.opposite. fwd. rewrite Fa. cbn [Z.eqb D.bind]. fwd. rewrite Fb. cbn [Z.eqb D.bind negb].
+  unfold D.set_opps, D.set_opp. fwd.
+  replace ((x =? D.c2v s (D.prev_c a)) || (x =? D.c2v s (D.next_c b))) with false by lia.
+  unfold D.map_cv, D.set_lmc, D.set_hole. fwd.
+  eexists. split; [reflexivity|]. dproj. repeat split; reflexivity.
+Qed.
+
+Lemma dec_step_C_full : forall s sid ns a rest, DP.W NC maxv (D.nfaces s) s -> 3 * D.nfaces s + 3 <= NC -> D.stack s = a :: rest ->
+  let f := D.nfaces s in
+  let x := D.c2v s (D.next_c a) in let l := D.vc s x in let b := D.next_c l in
+  0 <= l < 3 * f -> a <> b -> D.copp s a = -1 -> D.copp s b = -1 ->
+  x <> D.c2v s (D.prev_c a) -> x <> D.c2v s (D.next_c b) ->
+  exists s', D.step NC maxv rm ns s sid 0 = D.Ok s' /\
+    D.copp s' = D.upd (D.upd (D.upd (D.upd (D.copp s) a (3 * f + 1)) (3 * f + 1) a) b (3 * f + 2)) (3 * f + 2) b /\
+    D.c2v s' = D.upd (D.upd (D.upd (D.c2v s) (3 * f) x) (3 * f + 1) (D.c2v s (D.next_c b))) (3 * f + 2) (D.c2v s (D.prev_c a)) /\
+    D.nv s' = D.nv s /\ D.stack s' = 3 * f :: rest /\
+    D.events s' = D.events s /\ D.splits s' = D.splits s /\ D.invalid s' = D.invalid s /\ D.nfaces s' = f + 1.
+Proof.
+  intros s sid ns a rest HW HN Est f x l b Hl Nab Fa Fb Nx1 Nx2.
+  destruct (dec_step_C (D.with_nfaces s (f + 1)) f a rest) as (s1 & E1 & A1 & A2 & A3 & A4 & A5 & A6 & A7 & A8 & _); dproj; auto.
+  { apply DP.W_with_nfaces. auto. }
+  unfold D.step. change (0 =? D.TOPOLOGY_C) with true. cbv iota. fold f. rewrite E1.
+  eexists. split; [reflexivity|]. repeat split; auto.
+Qed.
+
 End DecSteps.
 
 Lemma rot_face r q : rot r q / 3 = q / 3.
@@ -195,6 +241,25 @@ Lemma cntv_nonneg l : (0 <= cntv l)%Z.
 Proof. induction l; cbn [cntv]; unfold cntv1 in *; try lia. destruct (a =? 7)%Z; [lia|]. destruct ((a =? 5) || (a =? 3))%Z; lia. Qed.
 Lemma cntv_firstn l k : (cntv (firstn k l) <= cntv l)%Z.
 Proof. rewrite <- (firstn_skipn k l) at 2. rewrite cntv_app. pose proof (cntv_nonneg (skipn k l)). lia. Qed.
+
+
+(** the first return of an orbit *)
+Lemma first_return (f : nat -> option nat) a : forall p, 1 <= p -> oiter f p (Some a) = Some a ->
+  exists p0, 1 <= p0 /\ oiter f p0 (Some a) = Some a /\ forall q, 1 <= q < p0 -> oiter f q (Some a) <> Some a.
+Proof.
+  assert (G : forall p, (exists q, 1 <= q <= p /\ oiter f q (Some a) = Some a /\ forall q', 1 <= q' < q -> oiter f q' (Some a) <> Some a) \/
+                        (forall q, 1 <= q <= p -> oiter f q (Some a) <> Some a)).
+  { induction p as [|p IH]. right; intros; lia.
+    destruct IH as [(q & A & B & C)|N]. left; exists q; repeat split; auto; lia.
+    assert (Dc : {oiter f (S p) (Some a) = Some a} + {oiter f (S p) (Some a) <> Some a}).
+    { destruct (oiter f (S p) (Some a)) as [y|]; [|right; discriminate]. destruct (Nat.eq_dec y a); [left; congruence|right; congruence]. }
+    destruct Dc as [Y|Nn].
+    - left. exists (S p). repeat split; auto; try lia. intros q' Hq'. apply N. lia.
+    - right. intros q Hq. destruct (Nat.eq_dec q (S p)); [subst; auto|apply N; lia]. }
+  intros p Hp E. destruct (G p) as [(q & A & B & C)|N].
+  - exists q. repeat split; auto; lia.
+  - exfalso. apply (N p); auto.
+Qed.
 
 (** * Part 3: the simulation relation (decoder order) *)
 Section Sim.
@@ -402,107 +467,150 @@ Proof.
            ++ rewrite eco_prev by auto. rewrite V2. reflexivity.
 Qed.
 
-(** ** the symbol loop of the decoder along the script (classes without S and without split events) *)
-Variable rm : bool.
-Variable Y : list Z.     (* the symbols in DECODER order *)
-Hypothesis HNC : NC = 3 * Z.of_nat (length Q).
-Hypothesis HYQ : (length Y <= length Q)%nat.
-Hypothesis Hmaxv : cntv Y <= maxv.
 
-(** what the encoder guarantees about its [k]-th last symbol (corner [Q[k]]) *)
-Definition script_at (k : nat) : Prop :=
-  match nth_error Y k with
-  | Some y =>
-    (y = 7 /\ ncr k (eco k 0) /\ ncr k (eco k 1) /\ ncr k (eco k 2)) \/
-    (y = 5 /\ (1 <= k)%nat /\ opp_at opp (eco k 2) = Some (eco (k - 1) 0) /\ ncr k (eco k 0) /\ ncr k (eco k 1)) \/
-    (y = 3 /\ (1 <= k)%nat /\ opp_at opp (eco k 1) = Some (eco (k - 1) 0) /\ ncr k (eco k 0) /\ ncr k (eco k 2))
-  | None => False
-  end.
-
-Lemma sym_loop_sim : forall k, (k <= length Y)%nat -> (forall j, (j < k)%nat -> script_at j) ->
-  exists d, D.sym_loop NC maxv rm (Z.of_nat (length Y)) (firstn k Y) 0 (D.init_st []) = D.Ok d /\
-    SIM k d /\ DP.W NC maxv (Z.of_nat k) d /\ DF.FI (Z.of_nat k) d /\ D.nv d = cntv (firstn k Y) /\ D.events d = [] /\
-    D.invalid d = [] /\ (forall k', k = S k' -> exists rest, D.stack d = dco k' 0 :: rest).
+(** ** symbol C.  SwingRight in the encoder's table between created corners = the decoder's SwingLeft backwards *)
+Lemma sr_step_k k d j r j' r' : (k <= length Q)%nat -> SIM k d -> DF.FI (Z.of_nat k) d ->
+  (j < k)%nat -> (r < 3)%nat -> (j' < k)%nat -> (r' < 3)%nat -> swing_right opp (eco j r) = Some (eco j' r') ->
+  D.c2v d (dco j r) = D.c2v d (dco j' r').
 Proof.
-  pose proof (cntv_nonneg Y) as Hc0.
-  induction k as [|k IH]; intros Hk Sc.
-  - exists (D.init_st []). cbn [firstn D.sym_loop]. split; [reflexivity|]. split.
-    { constructor; cbn; intros; lia. }
-    split; [apply DP.W_init; lia|]. split; [apply DF.FI_init|]. cbn. repeat split; auto. intros; lia.
-  - destruct (IH ltac:(lia) ltac:(intros; apply Sc; lia)) as (d & E & HS & HW & HF & Hnv & Hev & Hinv & Hst).
-    specialize (Sc k ltac:(lia)). unfold script_at in Sc. destruct (nth_error Y k) as [y|] eqn:Ey; [|contradiction].
-    rewrite (firstn_S_nth _ _ _ Ey), sym_loop_app, E. cbn [D.bind D.sym_loop]. rewrite firstn_length_le by lia.
-    pose proof (s_nf _ _ HS) as Hnf.
-    assert (HW' : DP.W NC maxv (D.nfaces d) d) by (rewrite Hnf; auto).
-    assert (HF' : DF.FI (D.nfaces d) d) by (rewrite Hnf; auto).
-    assert (HN : 3 * D.nfaces d + 3 <= NC) by lia.
-    assert (Hkq : (k < length Q)%nat) by lia.
-    pose proof (cntv_firstn Y (S k)) as Hc1. rewrite (firstn_S_nth _ _ _ Ey), cntv_app in Hc1. cbn [cntv] in Hc1.
-    assert (Fin : forall d', D.step NC maxv rm (Z.of_nat (length Y)) d (0 + Z.of_nat k) y = D.Ok d' ->
-              SIM (S k) d' -> D.nv d' = D.nv d + cntv1 y -> D.events d' = [] -> D.invalid d' = [] ->
-              D.stack d' <> [] -> (forall rest, D.stack d' = rest -> exists rest', rest = dco k 0 :: rest') ->
-              exists d0, D.bind (D.step NC maxv rm (Z.of_nat (length Y)) d (0 + Z.of_nat k) y) (fun s => D.Ok s) = D.Ok d0 /\
-                SIM (S k) d0 /\ DP.W NC maxv (Z.of_nat (S k)) d0 /\ DF.FI (Z.of_nat (S k)) d0 /\
-                D.nv d0 = cntv (firstn k Y ++ [y]) /\ D.events d0 = [] /\ D.invalid d0 = [] /\
-                (forall k', S k = S k' -> exists rest, D.stack d0 = dco k' 0 :: rest)).
-    { intros d' Es S' Nv' Ev' In' _ St'. exists d'. rewrite Es. cbn [D.bind]. split; [reflexivity|]. split; [auto|].
-      destruct (DP.step_W _ _ _ _ _ _ _ _ HW' HN Es) as (W' & Nf' & _).
-      pose proof (DF.step_FI _ _ _ _ _ _ _ _ HW' HF' HN Es) as F'.
-      assert (Enf : D.nfaces d' = Z.of_nat (S k)) by lia. rewrite Enf in W', F'.
-      split; [auto|]. split; [auto|]. split; [rewrite cntv_app; cbn [cntv]; lia|]. split; [auto|]. split; [auto|].
-      intros k' Ek. inversion Ek; subst k'. apply St'. auto. }
-    destruct Sc as [(-> & N0 & N1 & N2)|[(-> & K1 & Eo & N0 & N1)|(-> & K1 & Eo & N0 & N2)]].
-    + (* E *)
-      destruct (dec_step_E_full NC maxv rm d (0 + Z.of_nat k) (Z.of_nat (length Y)) HW' HN ltac:(unfold cntv1 in Hc1; cbn in Hc1; lia) Hev)
-        as (d' & Es & A1 & A2 & A3 & A4 & A5 & A6 & A7 & A8).
-      apply (Fin d' Es); [ | rewrite A3; reflexivity | exact A5 | congruence | rewrite A4; discriminate | ].
-      * apply (SIM_E k d d'); auto; try (rewrite ?A2, ?Hnf; auto; lia).
-        intros r Hr. destruct r as [|[|[|r]]]; auto; lia.
-      * intros rest Er. rewrite A4 in Er. subst rest. eexists. unfold dco. f_equal. lia.
-    + (* R *)
-      destruct (Hst (k - 1)%nat ltac:(lia)) as (rest & Est).
-      assert (Fa : D.copp d (dco (k - 1) 0) = -1).
-      { pose proof (s_opp _ _ HS (k - 1)%nat 0%nat ltac:(lia) ltac:(lia)) as X. unfold s_opp_at in X.
-        destruct (opp_facts _ _ Eo) as (Eo' & _). rewrite Eo' in X. destruct X as [_ X]. apply X.
-        intros j' Hj' F. rewrite eco_face in F. apply Q_face_inj in F; lia. }
-      destruct (dec_step_RL_full NC maxv rm true d (0 + Z.of_nat k) (Z.of_nat (length Y)) _ rest HW' HN ltac:(unfold cntv1 in Hc1; cbn in Hc1; lia) Hev Est Fa)
-        as (d' & Es & A1 & A2 & A3 & A4 & A5 & A6 & A7 & A8).
-      apply (Fin d' Es); [ | rewrite A3; reflexivity | exact A5 | congruence | rewrite A4; discriminate | ].
-      * apply (SIM_RL k d d' 2%nat); auto; try lia.
-        -- rewrite A1, Hnf. replace (dco k 2) with (3 * Z.of_nat k + 2) by (unfold dco; lia). reflexivity.
-        -- rewrite A2, Hnf. cbn [Nat.modulo Nat.divmod Nat.add fst snd Nat.sub].
-           replace (dco k 2) with (3 * Z.of_nat k + 2) by (unfold dco; lia).
-           replace (dco k 1) with (3 * Z.of_nat k + 1) by (unfold dco; lia).
-           replace (dco k 0) with (3 * Z.of_nat k) by (unfold dco; lia). reflexivity.
-      * intros rest' Er. rewrite A4 in Er. subst rest'. eexists. unfold dco. f_equal. lia.
-    + (* L *)
-      destruct (Hst (k - 1)%nat ltac:(lia)) as (rest & Est).
-      assert (Fa : D.copp d (dco (k - 1) 0) = -1).
-      { pose proof (s_opp _ _ HS (k - 1)%nat 0%nat ltac:(lia) ltac:(lia)) as X. unfold s_opp_at in X.
-        destruct (opp_facts _ _ Eo) as (Eo' & _). rewrite Eo' in X. destruct X as [_ X]. apply X.
-        intros j' Hj' F. rewrite eco_face in F. apply Q_face_inj in F; lia. }
-      destruct (dec_step_RL_full NC maxv rm false d (0 + Z.of_nat k) (Z.of_nat (length Y)) _ rest HW' HN ltac:(unfold cntv1 in Hc1; cbn in Hc1; lia) Hev Est Fa)
-        as (d' & Es & A1 & A2 & A3 & A4 & A5 & A6 & A7 & A8).
-      apply (Fin d' Es); [ | rewrite A3; reflexivity | exact A5 | congruence | rewrite A4; discriminate | ].
-      * apply (SIM_RL k d d' 1%nat); auto; try lia.
-        -- rewrite A1, Hnf. replace (dco k 1) with (3 * Z.of_nat k + 1) by (unfold dco; lia). reflexivity.
-        -- rewrite A2, Hnf. cbn [Nat.modulo Nat.divmod Nat.add fst snd Nat.sub].
-           replace (dco k 2) with (3 * Z.of_nat k + 2) by (unfold dco; lia).
-           replace (dco k 1) with (3 * Z.of_nat k + 1) by (unfold dco; lia).
-           replace (dco k 0) with (3 * Z.of_nat k) by (unfold dco; lia). reflexivity.
-      * intros rest' Er. rewrite A4 in Er. subst rest'. eexists. unfold dco. f_equal. lia.
+  intros Hk HS HF Hj Hr Hj' Hr' E. unfold swing_right in E. destruct (opp_at opp (prev_c (eco j r))) as [o|] eqn:Eo; [|discriminate].
+  inversion E as [E1]. clear E.
+  assert (Eoo : o = eco j' ((r' + 1) mod 3)) by (rewrite eco_next by auto; rewrite <- E1; symmetry; apply next_prev).
+  subst o. destruct (opp_facts _ _ Eo) as (Eo' & _).
+  assert (Hm2 : ((r + 2) mod 3 < 3)%nat) by (apply Nat.mod_upper_bound; lia).
+  assert (Hn2 : ((r' + 1) mod 3 < 3)%nat) by (apply Nat.mod_upper_bound; lia).
+  pose proof (s_opp _ _ HS j' ((r' + 1) mod 3)%nat Hj' Hn2) as X. unfold s_opp_at in X. rewrite Eo' in X. destruct X as [X _].
+  rewrite <- (eco_prev j r Hr) in X. specialize (X j ((r + 2) mod 3)%nat Hj Hm2 eq_refl).
+  set (c := dco j' r').
+  assert (Hc : 0 <= c < 3 * Z.of_nat k) by (unfold c, dco; lia).
+  assert (Esl : DP.slf d c = dco j r).
+  { rewrite DF.slf_at by lia. unfold c. rewrite dco_next by auto. rewrite X. rewrite dco_next by auto.
+    replace (((r + 2) mod 3 + 1) mod 3)%nat with r by (destruct r as [|[|[|r]]]; cbn; lia). reflexivity. }
+  pose proof (DF.f_lab _ _ HF c Hc) as L. rewrite Esl in L. apply L. unfold dco. lia.
 Qed.
 
-(** ** the start-face phase when every start configuration is a boundary one, and the compaction without S *)
-Lemma start_loop_false nfz bits : (forall i, bits i = false) -> forall stk k s,
-  exists s', D.start_loop NC maxv nfz bits k stk s = D.Ok s' /\ D.c2v s' = D.c2v s /\ D.copp s' = D.copp s /\
-    D.nfaces s' = D.nfaces s /\ D.invalid s' = D.invalid s /\ D.nv s' = D.nv s.
+(** the tip vertex of the C face Q[k] is interior and every other corner at it is created *)
+Definition Cint (k : nat) : Prop :=
+  forall x, (x < 3 * nf)%nat -> is_degenerated c2v (x / 3) = false -> vtx c2v x = vtx c2v (eco k 0) ->
+    opp_at opp (next_c x) <> None /\ opp_at opp (prev_c x) <> None /\
+    (x <> eco k 0 -> exists j' r', (j' < k)%nat /\ (r' < 3)%nat /\ x = eco j' r').
+
+(** LeftMostCorner of the decoder vertex of Next(active corner) is the corner Previous(left corner) of the encoder *)
+Lemma fan_lmc k d : (1 <= k)%nat -> (k < length Q)%nat -> SIM k d -> DP.W NC maxv (Z.of_nat k) d -> DF.FI (Z.of_nat k) d ->
+  opp_at opp (eco k 1) = Some (eco (k - 1) 0) -> Cint k ->
+  exists jb rb, (jb < k)%nat /\ (rb < 3)%nat /\ opp_at opp (eco k 2) = Some (eco jb ((rb + 1) mod 3)) /\
+                D.vc d (D.c2v d (dco (k - 1) 1)) = dco jb rb.
 Proof.
-  intros Hb. induction stk as [|a r IH]; intros k s; cbn [D.start_loop].
-  - eexists. split; [reflexivity|]. cbn. repeat split; auto.
-  - rewrite Hb. destruct (IH (S k) (D.with_inits s ((false, a) :: D.inits s))) as (s' & E & A). exists s'. split; auto.
+  intros K1 Hk HS HW HF Er CI.
+  set (c := eco k 0) in *. set (v := vtx c2v c).
+  destruct (Qrng k Hk) as [Hc Dc]. fold (eco k 0) in Hc. fold c in Hc. rewrite <- (eco_face k 0) in Dc. fold c in Dc.
+  destruct (CI c Hc Dc eq_refl) as (Rn & Ln & _).
+  assert (E1 : eco k 1 = next_c c) by reflexivity. assert (E2 : eco k 2 = prev_c c) by reflexivity. rewrite E1 in Er. rewrite E2.
+  destruct (opp_at opp (prev_c c)) as [lc|] eqn:El; [|congruence].
+  destruct (opp_facts _ _ El) as (El' & _ & Hlc & _ & Dlc & Nfl & Vl1 & Vl2). rewrite next_prev in Vl1. rewrite prev_face in Nfl.
+  destruct (opp_facts _ _ Er) as (Er' & _ & Hrc & _ & Drc & Nfr & Vr1 & Vr2). rewrite prev_next in Vr2.
+  set (P := fun x => (x < 3 * nf)%nat /\ is_degenerated c2v (x / 3) = false /\ vtx c2v x = v).
+  assert (Pc : P c) by (repeat split; auto).
+  assert (Pf : forall a, P a -> exists b, swing_right opp a = Some b /\ P b).
+  { intros a (A1 & A2 & A3). destruct (CI a A1 A2 A3) as (_ & L0 & _). unfold swing_right.
+    destruct (opp_at opp (prev_c a)) as [o|] eqn:Eo; [|congruence]. exists (prev_c o). split; auto.
+    destruct (opp_facts _ _ Eo) as (_ & _ & Ho & _ & Do & _ & V1 & _). rewrite next_prev in V1.
+    split; [apply prev_lt; auto|]. split; [rewrite prev_face; auto|]. congruence. }
+  assert (Pg : forall a, P a -> exists b, swing_left opp a = Some b /\ P b).
+  { intros a (A1 & A2 & A3). destruct (CI a A1 A2 A3) as (R0 & _ & _). unfold swing_left.
+    destruct (opp_at opp (next_c a)) as [o|] eqn:Eo; [|congruence]. exists (next_c o). split; auto.
+    destruct (opp_facts _ _ Eo) as (_ & _ & Ho & _ & Do & _ & _ & V2). rewrite prev_next in V2.
+    split; [apply next_lt; auto|]. split; [rewrite next_face; auto|]. congruence. }
+  destruct (cyc_period (swing_right opp) (swing_left opp) (3 * nf) P (sr_sl c2v opp nf Hlen OK) (sl_sr c2v opp nf Hlen OK)) with (a := c)
+    as (p & Hp & Ep); auto.
+  { intros a b E. unfold swing_right in E. destruct (opp_at opp (prev_c a)) as [o|] eqn:Eo; [|discriminate]. inversion E; subst b.
+    destruct (opp_facts _ _ Eo) as (_ & _ & Ho & _). apply prev_lt; auto. }
+  { intros a (A & _). auto. }
+  destruct (first_return _ c p Hp Ep) as (p0 & Hp0 & Ep0 & Min).
+  (* the first step *)
+  assert (S1 : swing_right opp c = Some (prev_c lc)) by (unfold swing_right; rewrite El; auto).
+  assert (Ne0 : prev_c lc <> c). { intro X. apply Nfl. rewrite <- X, prev_face. auto. }
+  assert (Pe0 : P (prev_c lc)).
+  { split; [apply prev_lt; auto|]. split; [rewrite prev_face; auto|]. unfold v. congruence. }
+  destruct Pe0 as (B1 & B2 & B3). destruct (CI _ B1 B2 B3) as (_ & _ & Cr). destruct (Cr Ne0) as (jb & rb & Hjb & Hrb & Eb).
+  (* all corners of the walk before the return are created and have the decoder vertex of the first one *)
+  assert (Walk : forall q, (1 <= q < p0)%nat -> exists j r, (j < k)%nat /\ (r < 3)%nat /\
+             oiter (swing_right opp) q (Some c) = Some (eco j r) /\ D.c2v d (dco j r) = D.c2v d (dco jb rb)).
+  { induction q as [|q IHq]; intros Hq; [lia|]. destruct (Nat.eq_dec q 0) as [->|Nq].
+    - exists jb, rb. repeat split; auto. cbn [oiter]. rewrite S1, Eb. auto.
+    - destruct (IHq ltac:(lia)) as (j & r & Hj & Hr & Eq & Vq).
+      destruct (cyc_all (swing_right opp) P Pf c (S q) Pc) as (y & Ey & (Y1 & Y2 & Y3)).
+      assert (Ny : y <> c). { intro X. subst y. apply (Min (S q)); auto. }
+      destruct (CI y Y1 Y2 Y3) as (_ & _ & Cy). destruct (Cy Ny) as (j2 & r2 & Hj2 & Hr2 & ->).
+      exists j2, r2. repeat split; auto. rewrite <- Vq. symmetry.
+      apply (sr_step_k k d j r j2 r2); auto; try lia. cbn [oiter] in Ey. rewrite Eq in Ey. auto. }
+  (* the last corner before the return is Next(right corner) *)
+  assert (Hp2 : (2 <= p0)%nat).
+  { destruct (Nat.eq_dec p0 1) as [->|]; [|lia]. exfalso. cbn [oiter] in Ep0. rewrite S1 in Ep0. inversion Ep0. auto. }
+  destruct (Walk (p0 - 1)%nat ltac:(lia)) as (j & r & Hj & Hr & Eq & Vq).
+  assert (Ely : swing_right opp (eco j r) = Some c).
+  { replace p0 with (S (p0 - 1)) in Ep0 by lia. cbn [oiter] in Ep0. rewrite Eq in Ep0. auto. }
+  apply (sr_sl c2v opp nf Hlen OK) in Ely. unfold swing_left in Ely. rewrite Er in Ely. inversion Ely as [Ey].
+  assert (Ey' : eco (k - 1) 1 = eco j r) by (rewrite <- Ey; reflexivity).
+  apply eco_inj in Ey'; try lia. destruct Ey' as [<- <-].
+  exists jb, rb. split; auto. split; auto. split.
+  - f_equal. rewrite eco_next by auto. rewrite <- Eb. symmetry. apply next_prev.
+  - rewrite Vq. apply (DF.dead_end_lmc NC maxv d (Z.of_nat k)); auto. unfold dco; lia.
+    rewrite DF.slf_at by (unfold dco; lia). rewrite dco_next by auto.
+    assert (Hm : ((rb + 1) mod 3 < 3)%nat) by (apply Nat.mod_upper_bound; lia).
+    pose proof (s_opp _ _ HS jb ((rb + 1) mod 3)%nat Hjb Hm) as X. unfold s_opp_at in X.
+    rewrite eco_next, <- Eb, next_prev, El' in X by auto. destruct X as [_ X]. rewrite X. reflexivity.
+    intros j' Hj' F. rewrite prev_face in F. unfold c in F. rewrite eco_face in F. apply Q_face_inj in F; lia.
 Qed.
 
+Lemma SIM_C k d d' jb rb : (k < length Q)%nat -> (1 <= k)%nat -> (jb < k)%nat -> (rb < 3)%nat -> SIM k d -> DP.W NC maxv (Z.of_nat k) d ->
+  let a := dco (k - 1) 0 in let b := dco jb ((rb + 1) mod 3) in
+  D.copp d' = D.upd (D.upd (D.upd (D.upd (D.copp d) a (dco k 1)) (dco k 1) a) b (dco k 2)) (dco k 2) b ->
+  D.c2v d' = D.upd (D.upd (D.upd (D.c2v d) (dco k 0) (D.c2v d (D.next_c a))) (dco k 1) (D.c2v d (D.next_c b))) (dco k 2) (D.c2v d (D.prev_c a)) ->
+  D.nfaces d' = Z.of_nat (S k) ->
+  opp_at opp (eco k 1) = Some (eco (k - 1) 0) -> opp_at opp (eco k 2) = Some (eco jb ((rb + 1) mod 3)) ->
+  ncr k (eco k 0) ->
+  SIM (S k) d'.
+Proof.
+  intros Hk H1 Hjb Hrb [S1 S2 S3] HW a b Eo Ev En Er El N0.
+  set (rl := ((rb + 1) mod 3)%nat) in *.
+  assert (Hrl : (rl < 3)%nat) by (apply Nat.mod_upper_bound; lia).
+  destruct (opp_facts _ _ Er) as (_ & _ & _ & _ & _ & _ & Vr1 & Vr2).
+  destruct (opp_facts _ _ El) as (_ & _ & _ & _ & _ & _ & Vl1 & Vl2).
+  assert (E1 : eco k 1 = next_c (eco k 0)) by reflexivity. assert (E2 : eco k 2 = prev_c (eco k 0)) by reflexivity.
+  rewrite E1 in Vr1, Vr2. rewrite E2 in Vl1, Vl2. rewrite next_next in Vr1. rewrite prev_next in Vr2. rewrite next_prev in Vl1. rewrite prev_prev in Vl2.
+  assert (Nab : (k - 1, 0)%nat <> (jb, rl)).
+  { intro X. inversion X as [[X1 X2]].
+    assert (Y : (eco (k - 1) 0 / 3)%nat <> (eco jb rl / 3)%nat).
+    { apply (nbr_next_distinct c2v opp nf Hlen OK (next_c (eco k 0))); [exact Er|rewrite next_next; exact El]. }
+    apply Y. rewrite !eco_face. congruence. }
+  assert (Nabz : a <> b). { unfold a, b, dco. intro X. apply Nab. f_equal; lia. }
+  constructor; auto.
+  - apply (opp_step k d d' (fun r => match r with 1%nat => Some ((k - 1)%nat, 0%nat) | 2%nat => Some (jb, rl) | _ => None end)); auto.
+    + intros rn jo r0 Hrn Eg. destruct rn as [|[|[|rn]]]; try discriminate; inversion Eg; subst jo r0.
+      * split; [lia|]. split; [lia|]. split; auto. rewrite Eo. unfold a, b, dco in *. split; upd_eval.
+      * split; [lia|]. split; [lia|]. split; auto. rewrite Eo. unfold a, b, dco in *. split; upd_eval.
+    + intros r Hr Eg. destruct r as [|[|[|r]]]; try discriminate; try lia. split; auto.
+      rewrite Eo. unfold a, b, dco in *. upd_eval. apply (DP.w_free _ _ _ _ HW). lia.
+    + intros j r Hj Hr Ng. rewrite Eo. unfold a, b, dco in *. upd_eval.
+      * exfalso. apply (Ng 2%nat); [lia|]. f_equal. f_equal; lia.
+      * exfalso. apply (Ng 1%nat); [lia|]. f_equal. f_equal; lia.
+  - apply (vtx_step k d d'); auto.
+    + intros j r Hj Hr. apply (DP.w_vr _ _ _ _ HW). unfold dco. lia.
+    + intros j r Hj Hr. rewrite Ev. unfold dco. upd_eval; auto.
+    + intros r Hr. left. rewrite Ev. unfold a, b. rewrite (dco_prev (k - 1) 0), (dco_next (k - 1) 0), (dco_next jb rl) by lia.
+      cbn [Nat.modulo Nat.divmod Nat.add fst snd Nat.sub].
+      destruct r as [|[|[|r]]]; try lia.
+      * exists (k - 1)%nat, 1%nat. split; [lia|]. split; [lia|]. split; [unfold dco; upd_eval; auto|].
+        change (eco (k - 1) 1) with (next_c (eco (k - 1) 0)). congruence.
+      * exists jb, ((rl + 1) mod 3)%nat. split; [lia|]. split; [apply Nat.mod_upper_bound; lia|]. split; [unfold dco; upd_eval; auto|].
+        rewrite eco_next by auto. rewrite E1. congruence.
+      * exists (k - 1)%nat, 2%nat. split; [lia|]. split; [lia|]. split; [unfold dco; upd_eval; auto|].
+        change (eco (k - 1) 2) with (prev_c (eco (k - 1) 0)). rewrite E2. congruence.
+Qed.
+
+(** ** the end: [SIM] for all faces gives [eb_iso] *)
+Section SimEnd.
 Hypothesis Complete : forall f, (f < nf)%nat -> is_degenerated c2v f = false -> In f (map (fun c => (c / 3)%nat) Q).
 Hypothesis FAN : one_fan c2v opp.
 
@@ -586,12 +694,164 @@ Proof.
         apply eco_inj in E; auto. destruct E as [<- <-]. auto.
 Qed.
 
+End SimEnd.
+
+(** ** the symbol loop of the decoder along the script (classes without S and without split events) *)
+Variable rm : bool.
+Variable Y : list Z.     (* the symbols in DECODER order *)
+Hypothesis HNC : NC = 3 * Z.of_nat (length Q).
+Hypothesis HYQ : (length Y <= length Q)%nat.
+Hypothesis Hmaxv : cntv Y <= maxv.
+
+(** what the encoder guarantees about its [k]-th last symbol (corner [Q[k]]) *)
+Definition script_at (k : nat) : Prop :=
+  match nth_error Y k with
+  | Some y =>
+    (y = 7 /\ ncr k (eco k 0) /\ ncr k (eco k 1) /\ ncr k (eco k 2)) \/
+    (y = 5 /\ (1 <= k)%nat /\ opp_at opp (eco k 2) = Some (eco (k - 1) 0) /\ ncr k (eco k 0) /\ ncr k (eco k 1)) \/
+    (y = 3 /\ (1 <= k)%nat /\ opp_at opp (eco k 1) = Some (eco (k - 1) 0) /\ ncr k (eco k 0) /\ ncr k (eco k 2)) \/
+    (y = 0 /\ (1 <= k)%nat /\ opp_at opp (eco k 1) = Some (eco (k - 1) 0) /\ ncr k (eco k 0) /\ Cint k)
+  | None => False
+  end.
+
+Lemma sym_loop_sim : forall k, (k <= length Y)%nat -> (forall j, (j < k)%nat -> script_at j) ->
+  exists d, D.sym_loop NC maxv rm (Z.of_nat (length Y)) (firstn k Y) 0 (D.init_st []) = D.Ok d /\
+    SIM k d /\ DP.W NC maxv (Z.of_nat k) d /\ DF.FI (Z.of_nat k) d /\ D.nv d = cntv (firstn k Y) /\ D.events d = [] /\
+    D.invalid d = [] /\ (forall k', k = S k' -> exists rest, D.stack d = dco k' 0 :: rest).
+Proof.
+  pose proof (cntv_nonneg Y) as Hc0.
+  induction k as [|k IH]; intros Hk Sc.
+  - exists (D.init_st []). cbn [firstn D.sym_loop]. split; [reflexivity|]. split.
+    { constructor; cbn; intros; lia. }
+    split; [apply DP.W_init; lia|]. split; [apply DF.FI_init|]. cbn. repeat split; auto. intros; lia.
+  - destruct (IH ltac:(lia) ltac:(intros; apply Sc; lia)) as (d & E & HS & HW & HF & Hnv & Hev & Hinv & Hst).
+    specialize (Sc k ltac:(lia)). unfold script_at in Sc. destruct (nth_error Y k) as [y|] eqn:Ey; [|contradiction].
+    rewrite (firstn_S_nth _ _ _ Ey), sym_loop_app, E. cbn [D.bind D.sym_loop]. rewrite firstn_length_le by lia.
+    pose proof (s_nf _ _ HS) as Hnf.
+    assert (HW' : DP.W NC maxv (D.nfaces d) d) by (rewrite Hnf; auto).
+    assert (HF' : DF.FI (D.nfaces d) d) by (rewrite Hnf; auto).
+    assert (HN : 3 * D.nfaces d + 3 <= NC) by lia.
+    assert (Hkq : (k < length Q)%nat) by lia.
+    pose proof (cntv_firstn Y (S k)) as Hc1. rewrite (firstn_S_nth _ _ _ Ey), cntv_app in Hc1. cbn [cntv] in Hc1.
+    assert (Fin : forall d', D.step NC maxv rm (Z.of_nat (length Y)) d (0 + Z.of_nat k) y = D.Ok d' ->
+              SIM (S k) d' -> D.nv d' = D.nv d + cntv1 y -> D.events d' = [] -> D.invalid d' = [] ->
+              D.stack d' <> [] -> (forall rest, D.stack d' = rest -> exists rest', rest = dco k 0 :: rest') ->
+              exists d0, D.bind (D.step NC maxv rm (Z.of_nat (length Y)) d (0 + Z.of_nat k) y) (fun s => D.Ok s) = D.Ok d0 /\
+                SIM (S k) d0 /\ DP.W NC maxv (Z.of_nat (S k)) d0 /\ DF.FI (Z.of_nat (S k)) d0 /\
+                D.nv d0 = cntv (firstn k Y ++ [y]) /\ D.events d0 = [] /\ D.invalid d0 = [] /\
+                (forall k', S k = S k' -> exists rest, D.stack d0 = dco k' 0 :: rest)).
+    { intros d' Es S' Nv' Ev' In' _ St'. exists d'. rewrite Es. cbn [D.bind]. split; [reflexivity|]. split; [auto|].
+      destruct (DP.step_W _ _ _ _ _ _ _ _ HW' HN Es) as (W' & Nf' & _).
+      pose proof (DF.step_FI _ _ _ _ _ _ _ _ HW' HF' HN Es) as F'.
+      assert (Enf : D.nfaces d' = Z.of_nat (S k)) by lia. rewrite Enf in W', F'.
+      split; [auto|]. split; [auto|]. split; [rewrite cntv_app; cbn [cntv]; lia|]. split; [auto|]. split; [auto|].
+      intros k' Ek. inversion Ek; subst k'. apply St'. auto. }
+    destruct Sc as [(-> & N0 & N1 & N2)|[(-> & K1 & Eo & N0 & N1)|[(-> & K1 & Eo & N0 & N2)|(-> & K1 & Eo & N0 & CI)]]].
+    + (* E *)
+      destruct (dec_step_E_full NC maxv rm d (0 + Z.of_nat k) (Z.of_nat (length Y)) HW' HN ltac:(unfold cntv1 in Hc1; cbn in Hc1; lia) Hev)
+        as (d' & Es & A1 & A2 & A3 & A4 & A5 & A6 & A7 & A8).
+      apply (Fin d' Es); [ | rewrite A3; reflexivity | exact A5 | congruence | rewrite A4; discriminate | ].
+      * apply (SIM_E k d d'); auto; try (rewrite ?A2, ?Hnf; auto; lia).
+        intros r Hr. destruct r as [|[|[|r]]]; auto; lia.
+      * intros rest Er. rewrite A4 in Er. subst rest. eexists. unfold dco. f_equal. lia.
+    + (* R *)
+      destruct (Hst (k - 1)%nat ltac:(lia)) as (rest & Est).
+      assert (Fa : D.copp d (dco (k - 1) 0) = -1).
+      { pose proof (s_opp _ _ HS (k - 1)%nat 0%nat ltac:(lia) ltac:(lia)) as X. unfold s_opp_at in X.
+        destruct (opp_facts _ _ Eo) as (Eo' & _). rewrite Eo' in X. destruct X as [_ X]. apply X.
+        intros j' Hj' F. rewrite eco_face in F. apply Q_face_inj in F; lia. }
+      destruct (dec_step_RL_full NC maxv rm true d (0 + Z.of_nat k) (Z.of_nat (length Y)) _ rest HW' HN ltac:(unfold cntv1 in Hc1; cbn in Hc1; lia) Hev Est Fa)
+        as (d' & Es & A1 & A2 & A3 & A4 & A5 & A6 & A7 & A8).
+      apply (Fin d' Es); [ | rewrite A3; reflexivity | exact A5 | congruence | rewrite A4; discriminate | ].
+      * apply (SIM_RL k d d' 2%nat); auto; try lia.
+        -- rewrite A1, Hnf. replace (dco k 2) with (3 * Z.of_nat k + 2) by (unfold dco; lia). reflexivity.
+        -- rewrite A2, Hnf. cbn [Nat.modulo Nat.divmod Nat.add fst snd Nat.sub].
+           replace (dco k 2) with (3 * Z.of_nat k + 2) by (unfold dco; lia).
+           replace (dco k 1) with (3 * Z.of_nat k + 1) by (unfold dco; lia).
+           replace (dco k 0) with (3 * Z.of_nat k) by (unfold dco; lia). reflexivity.
+      * intros rest' Er. rewrite A4 in Er. subst rest'. eexists. unfold dco. f_equal. lia.
+    + (* L *)
+      destruct (Hst (k - 1)%nat ltac:(lia)) as (rest & Est).
+      assert (Fa : D.copp d (dco (k - 1) 0) = -1).
+      { pose proof (s_opp _ _ HS (k - 1)%nat 0%nat ltac:(lia) ltac:(lia)) as X. unfold s_opp_at in X.
+        destruct (opp_facts _ _ Eo) as (Eo' & _). rewrite Eo' in X. destruct X as [_ X]. apply X.
+        intros j' Hj' F. rewrite eco_face in F. apply Q_face_inj in F; lia. }
+      destruct (dec_step_RL_full NC maxv rm false d (0 + Z.of_nat k) (Z.of_nat (length Y)) _ rest HW' HN ltac:(unfold cntv1 in Hc1; cbn in Hc1; lia) Hev Est Fa)
+        as (d' & Es & A1 & A2 & A3 & A4 & A5 & A6 & A7 & A8).
+      apply (Fin d' Es); [ | rewrite A3; reflexivity | exact A5 | congruence | rewrite A4; discriminate | ].
+      * apply (SIM_RL k d d' 1%nat); auto; try lia.
+        -- rewrite A1, Hnf. replace (dco k 1) with (3 * Z.of_nat k + 1) by (unfold dco; lia). reflexivity.
+        -- rewrite A2, Hnf. cbn [Nat.modulo Nat.divmod Nat.add fst snd Nat.sub].
+           replace (dco k 2) with (3 * Z.of_nat k + 2) by (unfold dco; lia).
+           replace (dco k 1) with (3 * Z.of_nat k + 1) by (unfold dco; lia).
+           replace (dco k 0) with (3 * Z.of_nat k) by (unfold dco; lia). reflexivity.
+      * intros rest' Er. rewrite A4 in Er. subst rest'. eexists. unfold dco. f_equal. lia.
+    + (* C *)
+      destruct (Hst (k - 1)%nat ltac:(lia)) as (rest & Est).
+      destruct (fan_lmc k d K1 Hkq HS HW HF Eo CI) as (jb & rb & Hjb & Hrb & El & Evc).
+      set (rl := ((rb + 1) mod 3)%nat) in *.
+      assert (Hrl : (rl < 3)%nat) by (apply Nat.mod_upper_bound; lia).
+      assert (Fa : D.copp d (dco (k - 1) 0) = -1).
+      { pose proof (s_opp _ _ HS (k - 1)%nat 0%nat ltac:(lia) ltac:(lia)) as X. unfold s_opp_at in X.
+        destruct (opp_facts _ _ Eo) as (Eo' & _). rewrite Eo' in X. destruct X as [_ X]. apply X.
+        intros j' Hj' F. rewrite eco_face in F. apply Q_face_inj in F; lia. }
+      assert (Fb : D.copp d (dco jb rl) = -1).
+      { pose proof (s_opp _ _ HS jb rl Hjb Hrl) as X. unfold s_opp_at in X.
+        destruct (opp_facts _ _ El) as (El' & _). rewrite El' in X. destruct X as [_ X]. apply X.
+        intros j' Hj' F. rewrite eco_face in F. apply Q_face_inj in F; lia. }
+      assert (Ena : D.next_c (dco (k - 1) 0) = dco (k - 1) 1) by (rewrite dco_next by lia; reflexivity).
+      assert (Epa : D.prev_c (dco (k - 1) 0) = dco (k - 1) 2) by (rewrite dco_prev by lia; reflexivity).
+      assert (Eb : D.next_c (dco jb rb) = dco jb rl) by (rewrite dco_next by lia; reflexivity).
+      destruct (opp_facts _ _ Eo) as (_ & _ & _ & _ & _ & _ & Vr1 & Vr2).
+      destruct (opp_facts _ _ El) as (_ & _ & _ & _ & _ & _ & Vl1 & Vl2).
+      assert (E1 : eco k 1 = next_c (eco k 0)) by reflexivity. assert (E2 : eco k 2 = prev_c (eco k 0)) by reflexivity.
+      rewrite E1 in Vr1, Vr2. rewrite E2 in Vl1, Vl2. rewrite next_next in Vr1. rewrite prev_next in Vr2. rewrite next_prev in Vl1. rewrite prev_prev in Vl2.
+      destruct (Qrng k Hkq) as [_ Dk]. destruct (nondeg_corner c2v _ Dk) as (Nk1 & Nk2 & Nk3).
+      destruct (Qrng (k - 1)%nat ltac:(lia)) as [_ Dk1]. destruct (nondeg_corner c2v _ Dk1) as (Nr1 & Nr2 & Nr3).
+      destruct (dec_step_C_full NC maxv rm d (0 + Z.of_nat k) (Z.of_nat (length Y)) (dco (k - 1) 0) rest HW' HN Est)
+        as (d' & Es & A1 & A2 & A3 & A4 & A5 & A6 & A7 & A8).
+      * rewrite Ena, Evc, Hnf. unfold dco. lia.
+      * rewrite Ena, Evc, Eb. unfold dco. intro X.
+        assert (Y0 : (eco (k - 1) 0 / 3)%nat <> (eco jb rl / 3)%nat).
+        { apply (nbr_next_distinct c2v opp nf Hlen OK (next_c (eco k 0))); [exact Eo|rewrite next_next; exact El]. }
+        apply Y0. rewrite !eco_face. f_equal. f_equal. lia.
+      * exact Fa.
+      * rewrite Ena, Evc, Eb. exact Fb.
+      * rewrite Ena, Epa. intro X. apply (s_vtx _ _ HS) in X; try lia. apply Nr3. exact X.
+      * rewrite Ena, Evc, Eb, dco_next by auto. intro X. apply (s_vtx _ _ HS) in X; try lia.
+        rewrite eco_next in X by auto. change (eco (k - 1) 1) with (next_c (eco (k - 1) 0)) in X.
+        apply Nk1. change (nth k Q 0%nat) with (eco k 0). congruence.
+      * rewrite Ena, Evc, Eb in A1, A2.
+        apply (Fin d' Es); [ | rewrite A3; unfold cntv1; cbn; lia | congruence | congruence | rewrite A4; discriminate | ].
+        -- apply (SIM_C k d d' jb rb); auto; try lia.
+           ++ rewrite A1, Hnf. fold rl.
+              replace (dco k 1) with (3 * Z.of_nat k + 1) by (unfold dco; lia).
+              replace (dco k 2) with (3 * Z.of_nat k + 2) by (unfold dco; lia). reflexivity.
+           ++ rewrite A2, Hnf. fold rl. rewrite Ena, Epa.
+              replace (dco k 1) with (3 * Z.of_nat k + 1) by (unfold dco; lia).
+              replace (dco k 2) with (3 * Z.of_nat k + 2) by (unfold dco; lia).
+              replace (dco k 0) with (3 * Z.of_nat k) by (unfold dco; lia). reflexivity.
+        -- intros rest' Er. rewrite A4 in Er. subst rest'. eexists. unfold dco. f_equal. lia.
+Qed.
+
+(** ** the start-face phase when every start configuration is a boundary one, and the compaction without S *)
+Lemma start_loop_false nfz bits : (forall i, bits i = false) -> forall stk k s,
+  exists s', D.start_loop NC maxv nfz bits k stk s = D.Ok s' /\ D.c2v s' = D.c2v s /\ D.copp s' = D.copp s /\
+    D.nfaces s' = D.nfaces s /\ D.invalid s' = D.invalid s /\ D.nv s' = D.nv s.
+Proof.
+  intros Hb. induction stk as [|a r IH]; intros k s; cbn [D.start_loop].
+  - eexists. split; [reflexivity|]. cbn. repeat split; auto.
+  - rewrite Hb. destruct (IH (S k) (D.with_inits s ((false, a) :: D.inits s))) as (s' & E & A). exists s'. split; auto.
+Qed.
+
 (** ** the decoder on a script without S, without split events, all start configurations on a boundary *)
-Theorem dec_roundtrip_noS_boundary bits : length Y = length Q -> (forall j, (j < length Y)%nat -> script_at j) ->
+Theorem dec_roundtrip_noS_boundary bits :
+  (forall f, (f < nf)%nat -> is_degenerated c2v f = false -> In f (map (fun c => (c / 3)%nat) Q)) -> one_fan c2v opp ->
+  length Y = length Q -> (forall j, (j < length Y)%nat -> script_at j) ->
   (forall i, bits i = false) ->
   exists n s, D.eb_core NC maxv (Z.of_nat (length Q)) rm Y [] bits = D.Ok (n, s) /\ eb_iso c2v opp Q (D.c2v s) (D.copp s).
 Proof.
-  intros HL Sc Hb. destruct (sym_loop_sim (length Y) (le_n _) Sc) as (d & E & HS & HW & HF & Hnv & Hev & Hinv & _).
+  intros Complete FAN HL Sc Hb. destruct (sym_loop_sim (length Y) (le_n _) Sc) as (d & E & HS & HW & HF & Hnv & Hev & Hinv & _).
   rewrite firstn_all in E. unfold D.eb_core. rewrite E. cbn [D.bind].
   pose proof (DP.w_nv _ _ _ _ HW) as Hn. replace (D.nv d >? maxv) with false by lia.
   destruct (start_loop_false (Z.of_nat (length Q)) bits Hb (D.stack d) O d) as (s' & E' & A1 & A2 & A3 & A4 & A5).
